@@ -157,7 +157,7 @@ def bindingFromCst (name : Text) (c1 c2 : GC) (g2 : Text) (ve : Expr) (c3 : GC)
     | [] => (ve, [])
   let ve := ve.addAfter (gcTrivia [] rest3)
   let valueGap := flattenGC c2 ++ g2          -- gap_between(node, equals_token, value_node)
-  match splitAttrpath name with
+  match splitAttrpathF name with
   | .error e => .error e
   | .ok [_] => .ok (.binding name ve valueGap before [])
   | .ok _ => .error (.internal "uncovered:attrpath")
